@@ -362,6 +362,9 @@ func randType(r *Rng, depth int, c typeGenCfg) *tyNode {
 			}
 			return &tyNode{Kind: "ptr", Elem: e}
 		}
+		if r.P(1, 4) { // two pointer levels to be added at once
+			return &tyNode{Kind: "ptr", Elem: &tyNode{Kind: "ptr", Elem: randType(r, depth+2, c)}}
+		}
 		return &tyNode{Kind: "ptr", Elem: randType(r, depth+1, c)}
 	case k == 6 || k == 7:
 		return &tyNode{Kind: "slice", Elem: randType(r, depth+1, c)}
